@@ -432,7 +432,11 @@ def main():
     ap.add_argument("--jobs", type=int, default=int(os.environ.get("VERIF_JOBS", "5")))
     ap.add_argument("--replay", default=None)
     ap.add_argument("--no-evidence", action="store_true")
+    ap.add_argument("--all-tiers", action="store_true",
+                    help="probing only: also select harnesses of tier x (needs --only, writes no evidence)")
     args = ap.parse_args()
+    if args.all_tiers:
+        args.no_evidence = True
     prop = args.prop
     seed = int(os.environ.get("VERIF_SEED", "0") or 0)
     t_start = time.time()
@@ -448,6 +452,8 @@ def main():
         return 2
     P = specs.PROPS[prop]
     hs = specs.select(prop, args.tier, seed)
+    if args.all_tiers:
+        hs = list(P["harnesses"])
     if args.only:
         hs = [h for h in hs if re.search(args.only, h["name"])]
     if not hs:
